@@ -311,6 +311,11 @@ Definition aw_close (st : awstate) : awstate :=
 Definition aw_writer_run (fixed : bool) (ws : list (list byte)) : awall := aw_run fixed aw_init ws.
 Definition writer_unfixed := aw_writer_run false.
 
+(* what is assumed of the header coding, for the entries at hand only: the writer's decoder
+   inverts the reader's encoder, and an encoded header contains no newline *)
+Definition hdr_ok (e : aentry) : Prop :=
+  parse (hdr (ae_meta e)) = Some (ae_meta e) /\ ~ In ANL (hdr (ae_meta e)).
+
 Definition aw_state_of (r : awall) : option awstate :=
   match r with AwDone st => Some st | AwFail _ st => Some st | AwFuel => None end.
 
@@ -364,3 +369,7 @@ Definition aentry_ok (e : aentry) : bool :=
   ae_dir e || ((0 <=? am_size (ae_meta e))%Z && (am_size (ae_meta e) <=? Z.of_nat (length (ae_data e)))%Z).
 Definition aentry_exact (e : aentry) : bool :=
   ae_dir e || (am_size (ae_meta e) =? Z.of_nat (length (ae_data e)))%Z.
+(* a file shorter than announced; an announced size that is not negative *)
+Definition ashort (e : aentry) : bool :=
+  negb (ae_dir e) && (Z.of_nat (length (ae_data e)) <? am_size (ae_meta e))%Z.
+Definition anonneg (e : aentry) : bool := ae_dir e || (0 <=? am_size (ae_meta e))%Z.
